@@ -15,7 +15,7 @@ structure DocEntry where
   names : List Str
   seq : Str
   attrs : Nat     -- 0: no attributes; 1: dataset/created/modified/version and the sequence's attributes;
-                  -- ≥ 2: as 1 but `version="x"` (well-formed XML, invalid against the Uniprot schema)
+                  -- ≥ 2: as 1 but `version="x"` — or, for 3, the impossible date `created="2000-45-30"` — (well-formed XML, invalid against the Uniprot schema)
   extra : Bool    -- protein and organism children (the organism has `name` children of its own)
   filler : Nat    -- after the entry: 0 newline; 1 a copyright element; 2 a comment; 3 nothing;
                   -- 4 a copyright element whose text holds the entity `&amp;`
@@ -49,6 +49,7 @@ def elemToks (tag : String) (text : Str) : List Tok :=
 def entryAttrs : Nat → List (Str × Str)
   | 0 => []
   | 1 => [(s "dataset", s "Swiss-Prot"), (s "created", s "2000-05-30"), (s "modified", s "2019-07-03"), (s "version", s "106")]
+  | 3 => [(s "dataset", s "Swiss-Prot"), (s "created", s "2000-45-30"), (s "modified", s "2019-07-03"), (s "version", s "106")]
   | _ => [(s "dataset", s "Swiss-Prot"), (s "created", s "2000-05-30"), (s "modified", s "2019-07-03"), (s "version", s "x")]
 
 def seqAttrs (d : DocEntry) : List (Str × Str) :=
